@@ -23,7 +23,14 @@ def interp_for(profile, params=None):
     key = profile
     I = _W.get(key)
     if I is None:
-        bodies, allocs = mirfront.load(profile)
+        if profile == 'dev+bin':
+            # the binary's MIR (main and the option struct) on top of the library's
+            b1, a1 = mirfront.load('dev'); b2, a2 = mirfront.load('bin')
+            bodies = dict(b1)
+            for k, v in b2.items(): bodies[k] = bodies.get(k, []) + v
+            allocs = dict(a1); allocs.update({('bin:' + k if k in a1 else k): v for k, v in a2.items()})
+        else:
+            bodies, allocs = mirfront.load(profile)
         p = {'profile': profile}
         I = Interp(bodies, allocs, models.all_models(), params=p, src_root=mirfront.REPO, expanded=mirfront.expanded())
         _W[key] = I
@@ -117,10 +124,14 @@ def explore(I, res, entry, on_path, prefixes, budget, deadline=None):
             res['inconclusive'].append('solver unknown: ' + str(out[1])[:300])
         elif out[0] == 'bound':
             res['bound_hits'] += 1
+        snap = (res['obligations'], res['discharged'], len(res['candidates']), len(res['samples']), dict(res['witnesses']))
         try:
             on_path(I, out, res)
         except mirsym.Infeasible:
-            pass
+            # an oracle-side fork (concretize / branch in on_path) ran out of values: this was not a path at all
+            res['obligations'], res['discharged'] = snap[0], snap[1]
+            del res['candidates'][snap[2]:]; del res['samples'][snap[3]:]; res['witnesses'] = snap[4]
+            res['paths'] -= 1; res['outcomes'][out[0]] -= 1; res['infeasible'] += 1
         except mirsym.Unsupported as e:
             res['inconclusive'].append('unsupported (oracle): ' + str(e)[:300])
         except mirsym.PathEnd as e:
@@ -145,7 +156,7 @@ def run_parallel(check, jobs, budget_per_task, deadline, report):
     _CHECK = check
     # parse MIR before forking so that workers share it
     for prof in getattr(check, 'PROFILES', ['dev']):
-        mirfront.load(prof)
+        for p_ in prof.split('+'): mirfront.load(p_)
     total = report.total
     first_budget = getattr(check, 'FIRST_BUDGET', 12)
     queue = [(j, None, first_budget) for j in jobs]
@@ -245,6 +256,8 @@ def finish(check, report):
     if report.mismatches:
         inconclusive.append(f'MODEL-MISMATCH: {len(report.mismatches)} solver model(s) did not reproduce against the real build, e.g. {json.dumps(report.mismatches[0], default=str, ensure_ascii=False)[:400]}')
     undis = total['obligations'] - total['discharged']
+    if undis > len(cands) and not inconclusive and not n_viol and not report.known_hits:
+        inconclusive.append(f'{undis} obligation(s) were neither discharged nor turned into a replayable counterexample')
     wall = time.time() - report.t0
     ev = {
         'property_id': pid, 'tier': report.tier, 'seed': report.seed, 'level': 'model_checking',
@@ -299,7 +312,7 @@ def main(check):
         return 1 if ok else 0
     report = Report(pid, a.tier, seed)
     try:
-        mirfront.dump(getattr(check, 'PROFILES', ['dev'])[0])
+        for p_ in getattr(check, 'PROFILES', ['dev'])[0].split('+'): mirfront.dump(p_)
     except mirfront.BuildError as e:
         print(f'[{pid}] BUILD FAILURE: {e}'); return 2
     jobs = check.jobs(a.tier, seed, report)
